@@ -294,9 +294,16 @@ class Ribosome:
 
         sequence = mrna.sequence
 
-        # Check required variables
+        # Check required variables. A variable written only inside {{#each}} bodies
+        # is bound per item (item, index, first, last, dict keys) or reported when
+        # the expanded body is rendered.
+        outside_loops = re.sub(
+            r'\{\{#each\s+\w+\}\}.*?\{\{/each\}\}', '', sequence, flags=re.DOTALL
+        )
         for var_name in mrna.get_required_variables():
             if var_name not in context:
+                if f"{{{{{var_name}}}}}" not in outside_loops:
+                    continue
                 msg = f"Missing required variable: {var_name}"
                 if self.strict:
                     self._errors_count += 1
@@ -408,6 +415,9 @@ class Ribosome:
             var_name = match.group(1)
             if var_name in context:
                 return _shield(str(context[var_name]))
+            if self.strict:
+                self._errors_count += 1
+                raise ValueError(f"Missing required variable: {var_name}")
             warnings.append(f"Unbound variable: {var_name}")
             return match.group(0)
 
